@@ -23,7 +23,9 @@ DAG_FAM = ["kFlowDecomp", "MinFlowDecomp", "kLeastAbsErrors", "kMinPathError", "
 CYC_FAM = ["kFlowDecompCycles", "MinFlowDecompCycles", "kLeastAbsErrorsCycles", "kMinPathErrorCycles", "kPathCoverCycles", "MinPathCoverCycles"]
 ALLCLS = DAG_FAM + CYC_FAM + ["MinErrorFlow", "MinGenSet", "MinSetCover", "NumPathsOptimization"]
 OO_POOL = [{"optimize_with_greedy": False}, {"optimize_with_safe_zero_edges": True}, {"optimize_with_safe_sequences": False}, {"optimize_with_greedy": True},
-           {"optimize_with_safe_sequences_fix_zero_edges": True}, {"optimize_with_flow_safe_paths": True}, {"allow_empty_paths": False}, {"allow_empty_walks": False}]
+           {"optimize_with_safe_sequences_fix_zero_edges": True}, {"optimize_with_flow_safe_paths": True}, {"allow_empty_paths": False}, {"allow_empty_walks": False},
+           {"use_subgraph_scanning_lowerbound": True}, {"use_min_gen_set_lowerbound": True}, {"optimize_with_guessed_weights": True},
+           {"use_subgraph_scanning_lowerbound": True, "optimize_with_greedy": False}, {"optimize_with_safety_as_subpath_constraints": True, "optimize_with_safe_paths": True}]
 
 
 def gen_cases(tier, seed):
@@ -38,7 +40,7 @@ def gen_cases(tier, seed):
             base = I.cyc_node_base(rng, wt="int", max_edges=7) if cyc else I.dag_node_base(rng, wt="int", max_edges=8)
         else:
             base = I.cyc_edge_base(rng, wt="int", max_edges=8) if cyc else I.dag_edge_base(rng, wt="int", max_edges=9)
-        steps = [rng.choice(fam) for _ in range(rng.randint(2, 4))]
+        steps = [rng.choice(fam + ["MinErrorFlow"]) for _ in range(rng.randint(2, 4))]
         dflt = (i % 8 == 0)
         c = {"cyc": cyc, "spec": I.spec_of(base), "steps": steps, "planted": len(base["planted"]), "oo": dict(rng.choice(OO_POOL)), "dflt": dflt,
              "group": "dflt" if dflt else "t1", "ignore": [], "cons": [], "scale": [], "superset": None, "share_ignore": rng.random() < 0.5, "node": node,
@@ -48,8 +50,10 @@ def gen_cases(tier, seed):
         elems = base["nodes"] if node else base["edges"]
         if rng.random() < 0.4 and len(elems) >= 3:
             c["ignore"] = gen.jl(I.pick_ignore(rng, base, 0.2))
-        if rng.random() < 0.3:
-            c["scale"] = [[gen.jl(e) if isinstance(e, tuple) else e, rng.choice([0.5, 1, 0.25])] for e in rng.sample(elems, rng.randint(1, max(1, len(elems) // 3)))]
+        if rng.random() < 0.5:
+            c["scale"] = [[gen.jl(e) if isinstance(e, tuple) else e, rng.choice([0.5, 1, 0.25, 0, 0])] for e in rng.sample(elems, rng.randint(1, max(1, len(elems) // 3)))]
+        if not node and rng.random() < 0.4 and base["edges"]:
+            c["trusted"] = [rng.choice(["set", "list"]), gen.jl(rng.sample(base["edges"], rng.randint(1, max(1, len(base["edges"]) // 2))))]
         if not cyc and rng.random() < 0.3:
             c["superset"] = [w for _, w in base["planted"]][:3] + [1]
         cases.append(c)
@@ -68,6 +72,17 @@ def build_args(cls, case, shared, k):
     """kwargs for one step, referencing the SHARED caller objects"""
     cyc = case["cyc"]
     kw = {}
+    if cls == "MinErrorFlow":
+        kw = {"flow_attr": "flow", "weight_type": int}
+        if case.get("node"):
+            kw["flow_attr_origin"] = "node"
+        if not case["dflt"]:
+            kw["solver_options"] = shared["so"]
+        if case["ignore"] and case["share_ignore"]:
+            kw["elements_to_ignore"] = shared["ign"]
+        if case["scale"]:
+            kw["error_scaling"] = shared["scale"]
+        return kw
     if "Cover" not in cls:
         kw["flow_attr"] = "flow"; kw["weight_type"] = int
         if case.get("node"):
@@ -84,6 +99,8 @@ def build_args(cls, case, shared, k):
         kw["elements_to_ignore"] = shared["ign"]
     if case["scale"] and cls in ("kLeastAbsErrors", "kMinPathError", "kLeastAbsErrorsCycles", "kMinPathErrorCycles"):
         kw["error_scaling"] = shared["scale"]
+    if cls in ("kLeastAbsErrors", "kLeastAbsErrorsCycles") and not case.get("node") and shared.get("trusted") is not None:
+        kw["trusted_edges_for_safety"] = shared["trusted"]
     if case["superset"] is not None and cls in ("kLeastAbsErrors", "kMinPathError", "kFlowDecomp") and "elements_to_ignore" not in kw:
         kw["solution_weights_superset"] = shared["superset"]
     if cls in ("kLeastAbsErrors", "kMinPathError", "kPathCover", "MinPathCover", "kLeastAbsErrorsCycles", "kMinPathErrorCycles", "kPathCoverCycles", "MinPathCoverCycles", "kFlowDecompCycles") \
@@ -96,7 +113,8 @@ def fresh_shared(case):
     return {"G": gen.build(case["spec"]), "oo": dict(case["oo"]), "so": {"threads": 1, "time_limit": 20},
             "cons": [[models._elem(e) for e in c] for c in case["cons"]], "ign": [models._elem(e) for e in case["ignore"]],
             "scale": {models._elem(e): f for e, f in case["scale"]}, "superset": list(case["superset"]) if case["superset"] is not None else None,
-            "starts": [], "ends": []}
+            "starts": [], "ends": [],
+            "trusted": (None if not case.get("trusted") else (set(map(tuple, case["trusted"][1])) if case["trusted"][0] == "set" else [tuple(e) for e in case["trusted"][1]]))}
 
 
 def outcome(cls, G, kw, idem, viol, obs, tag):
@@ -113,7 +131,10 @@ def outcome(cls, G, kw, idem, viol, obs, tag):
     if not solved:
         return ("unsolved",)
     g1 = M.safe_call(m.get_solution); o1 = M.safe_call(m.get_objective_value)
-    summ = ("solved", round(o1[1], 6) if o1[0] == "ok" and isinstance(o1[1], (int, float)) else str(o1[1:]), len(models.routes_of(g1[1])) if g1[0] == "ok" and g1[1] else None)
+    nroutes = None
+    if g1[0] == "ok" and isinstance(g1[1], dict) and models.routes_of(g1[1]) is not None:
+        nroutes = len(models.routes_of(g1[1]))
+    summ = ("solved", round(o1[1], 6) if o1[0] == "ok" and isinstance(o1[1], (int, float)) else str(o1[1:]), nroutes)
     if idem:
         obs["c18.idempotence_checks"] += 1
         g2 = M.safe_call(m.get_solution); o2 = M.safe_call(m.get_objective_value)
@@ -124,12 +145,21 @@ def outcome(cls, G, kw, idem, viol, obs, tag):
         so3 = M.safe_call(m.is_solved)
         if s2 != s or so3[1:] != (True,):
             viol.append({"sig": f"C18/second-solve-differs/{cls}", "msg": f"solve() {s} then {s2}, is_solved {so3}; {tag}"})
-        elif o3 != o1 or (g3[0] == "ok" and g1[0] == "ok" and g3[1] and g1[1] and len(models.routes_of(g3[1])) != len(models.routes_of(g1[1]))):
+        elif o3 != o1 or (cls != "MinErrorFlow" and g3[0] == "ok" and g1[0] == "ok" and g3[1] and g1[1] and len(models.routes_of(g3[1])) != len(models.routes_of(g1[1]))):
             viol.append({"sig": f"C18/second-solve-changes-result/{cls}", "msg": f"objective {o1} -> {o3}; {tag}"})
     return summ
 
 
 def run_case(case):
+    old = (fp.MinFlowDecomp.subgraph_lowerbound_size, fp.MinFlowDecomp.subgraph_lowerbound_shift)
+    fp.MinFlowDecomp.subgraph_lowerbound_size, fp.MinFlowDecomp.subgraph_lowerbound_shift = 3, 2      # the scanning option then acts on small graphs
+    try:
+        return _run_case(case)
+    finally:
+        fp.MinFlowDecomp.subgraph_lowerbound_size, fp.MinFlowDecomp.subgraph_lowerbound_shift = old
+
+
+def _run_case(case):
     viol = []; obs = collections.Counter()
     rng = gen.rng_for("C18run", case["steps"], case["planted"])
     shared = fresh_shared(case)
@@ -150,7 +180,7 @@ def run_case(case):
         for name, obj in shared.items():
             obs["c18.arg_objects_compared"] += 1
             if M.struct(obj) != snap[name]:
-                what = {"G": "graph", "oo": "optimization_options", "so": "solver_options", "cons": "constraints", "ign": "elements_to_ignore", "scale": "error_scaling",
+                what = {"trusted": "trusted_edges_for_safety", "G": "graph", "oo": "optimization_options", "so": "solver_options", "cons": "constraints", "ign": "elements_to_ignore", "scale": "error_scaling",
                         "superset": "solution_weights_superset", "starts": "additional_starts", "ends": "additional_ends"}[name]
                 before = snap[name]; after = M.struct(obj)
                 viol.append({"sig": f"C18/caller-object-mutated/{what}/{cls}", "msg": f"{what} changed by step {i} ({cls}): before {str(before)[:200]} after {str(after)[:300]}; {desc}"})
